@@ -392,8 +392,13 @@ def step (st : St) (line : String) : St × String :=
         | some root, some cnoc, some dnoc =>
           let droot := (rec? "droot").getD root
           let key (k : String) : Option Nat := (Driver.C19.kv k rest).bind String.toNat?
-          { ctl := some (mkFabric 1 root cnoc (orec "cicac") (key "ckey")),
-            dev := some (mkFabric 1 droot dnoc (orec "dicac") (key "dkey")),
+          -- a dishonest peer keeps the identity it was installed with and presents other credentials
+          let present (f : Fabric) (pn : Option Cert) (pi : Option Cert) (k : Option Nat) : Fabric :=
+            match pn with
+            | some n => { f with noc := n, icac := pi, opKey := k.getD n.pubKey }
+            | none => f
+          { ctl := some (present (mkFabric 1 root cnoc (orec "cicac") (key "ckey")) (rec? "cpnoc") (orec "cpicac") (key "ckey")),
+            dev := some (present (mkFabric 1 droot dnoc (orec "dicac") (key "dkey")) (rec? "dpnoc") (orec "dpicac") (key "dkey")),
             peer := (nodeIdOf dnoc.subject).getD 0, n := 0 }
         | _, _, _ => {}
       else st
